@@ -34,7 +34,7 @@ import logging
 from .. import kernel as K
 from ..basicdrv import Driver, EngineCrash, ByteSink, interact, parse_errors
 from .. import simfs
-from .common import execute, b, u
+from .common import execute, b
 
 NAME = 'save'
 PROPS = ('C15', 'C16')
@@ -537,7 +537,7 @@ class S15(object):
                 return False
             return True
         # ASCII
-        if not self.canon:
+        if not self.canon or (before_list is None and how != 'MERGE'):
             # the listing need not re-enter as the same program: any BASIC-level outcome is acceptable
             self.run.probe('ascii_unclaimed')
             return None
@@ -564,6 +564,17 @@ class S15(object):
             self.refresh_pristine()
         return True
 
+    def canon_listing(self, fmt):
+        """LIST output, if an ASCII claim can be made on it (it is what the canonical model says), else None."""
+        if fmt != 'A' or not self.canon:
+            return None
+        out = self.d.exec(b'LIST').out
+        if out != self.listing():
+            # C13's business; an ASCII claim made on a non-canonical listing would be unsound
+            self.run.probe('listing_not_canonical')
+            return None
+        return out
+
     def prepare_merge(self, op):
         if op.get('how') == 'MERGE':
             for l in op.get('resident', []):
@@ -574,11 +585,7 @@ class S15(object):
         before_img = self.ensure_img()
         if self.start is None:
             return
-        before_list = self.d.exec(b'LIST').out if (fmt == 'A' and self.canon) else None
-        if before_list is not None and before_list != self.listing():
-            # C13's business, but an ASCII claim made on a non-canonical listing would be unsound: do not claim
-            self.run.probe('listing_not_canonical')
-            before_list = None
+        before_list = self.canon_listing(fmt)
         r = self.attempt(self.claimed(fmt), lambda: self.save(fmt, dev, nm), 'SAVE,A')
         if r is None:
             return
@@ -608,6 +615,7 @@ class S15(object):
         before = self.ensure_img()
         if self.start is None:
             return
+        before_list = self.canon_listing(fmt)
         name = self.bname(dev, nm)   # binds before the fault is armed
         sub = os.path.basename(self.host(dev, nm))
         self.fs.arm(op['at'], nth=op['nth'], err=op['errno'], path_sub=sub, torn=op.get('torn'))
@@ -635,8 +643,8 @@ class S15(object):
                 self.v('save-error:%s:%s' % (fmt, dev), 'fault-free SAVE reports %r' % (r,))
                 return
             self.restart()
-            r = self.load(dev, nm)
-            if self.check_loaded(op, r, before, self.listing() if self.canon else None, '') is not True:
+            r = self.attempt(self.claimed(fmt), lambda: self.load(dev, nm), 'LOAD of ASCII file')
+            if r is not None and self.check_loaded(op, r, before, before_list, '') is not True:
                 self.resync('round trip')
             return
         st, after = self.snap()
@@ -647,9 +655,8 @@ class S15(object):
             # the statement claims success although a host call failed: then the data must be there
             self.run.probe('savefault_acknowledged')
             self.restart()
-            r2 = self.load(dev, nm)
-            ok = self.check_loaded(op, r2, before, self.listing() if self.canon else None, ':after-unreported-%s-fault' % op['at'])
-            if ok is not True:
+            r2 = self.attempt(self.claimed(fmt), lambda: self.load(dev, nm), 'LOAD of ASCII file')
+            if r2 is not None and self.check_loaded(op, r2, before, before_list, ':after-unreported-%s-fault' % op['at']) is not True:
                 self.resync('acknowledged faulted save')
             return
         self.run.probe('savefault_reported')
@@ -787,6 +794,9 @@ class S15(object):
                 if h not in root_logger.handlers:
                     root_logger.addHandler(h)
             root_logger.setLevel(level)
+        import threading
+        if threading.active_count() != 1:
+            raise K.HarnessError('the converter call left %d threads running' % threading.active_count())
 
     def op_cipher(self, op):
         from pcbasic.basic import converter
@@ -1146,6 +1156,7 @@ class S16(object):
         self.trap = False      # an ON ERROR trap may be armed
         self.modified = False  # lines deleted / renumbered since the load
         self.read_done = False
+        self.leaked = set()
         self.pbytes = None
         self.start = None
         self.ref_runs = {}
@@ -1159,28 +1170,38 @@ class S16(object):
     # -- oracles --------------------------------------------------------------
 
     def scan(self, data, sink):
+        """Look for any 6-byte window of any marker in what reached a sink. True if found."""
         if not data:
-            return
+            return False
+        found = False
         for frag, loc, mk in self.frags:
-            if frag in data:
-                i = data.find(frag)
-                if loc == 'data' and self.read_done:
-                    sig = 'leak:data:via-direct-mode-READ'
-                else:
-                    sig = 'leak:%s:%s' % (loc, sink)
-                self.run.violate('C16', sig, 'op #%d (%s): marker %r planted in %s appears in %s: ...%r... [model: protected=%r trap=%r]' % (
-                    self.opno, self.opkind, mk, {'rem': 'a REM', 'data': 'a DATA line', 'lit': 'a never-printed literal'}[loc], sink,
-                    bytes(data[max(0, i - 30):i + 30]), self.prot, self.trap))
-                return
+            if loc in self.leaked or frag not in data:
+                # (a class already reported for this run: what leaked once stays on the screen and in variables)
+                continue
+            self.leaked.add(loc)
+            found = True
+            i = data.find(frag)
+            if loc == 'data' and self.read_done:
+                sig = 'leak:data:via-direct-mode-READ'
+            else:
+                sig = 'leak:%s:%s' % (loc, sink)
+            self.run.violate('C16', sig, 'op #%d (%s): marker %r planted in %s appears in %s: ...%r... [model: protected=%r trap=%r]' % (
+                self.opno, self.opkind, mk, {'rem': 'a REM', 'data': 'a DATA line', 'lit': 'a never-printed literal'}[loc], sink,
+                bytes(data[max(0, i - 30):i + 30]), self.prot, self.trap))
+        return found
 
     def scan_all(self, out, vars_=()):
+        """Scan every sink; one disclosure is reported once, at the first sink (in this order) that shows it."""
         self.run.probe('sink_scans')
-        self.scan(out, 'pipe')
-        self.scan(self.sink.take(), 'output-stream')
-        self.scan(self.screen.take(), 'video-update')
+        found = self.scan(out, 'pipe')
+        found = self.scan(self.sink.take(), 'output-stream' if not found else 'pipe') or found
+        vid = self.screen.take()
+        if not found:
+            found = self.scan(vid, 'video-update')
         try:
             rows = self.d.chars()
-            self.scan(b''.join(b''.join(r) for r in rows), 'get_chars')
+            if not found:
+                found = self.scan(b''.join(b''.join(r) for r in rows), 'get_chars')
         except EngineCrash as e:
             self.crash(e)
         for name in vars_:
@@ -1189,9 +1210,10 @@ class S16(object):
             except EngineCrash as e:
                 self.crash(e)
                 continue
-            if isinstance(val, (bytes, bytearray)):
-                self.scan(bytes(val), 'variable')
-        self.scan_files()
+            if isinstance(val, (bytes, bytearray)) and not found:
+                found = self.scan(bytes(val), 'variable')
+        if not found:
+            self.scan_files()
 
     def scan_files(self):
         for dp, dn, fn in sorted(os.walk(self.root)):
